@@ -33,12 +33,19 @@ type c13Params struct {
 	Seg      int    `json:"seg"`
 	CloseAt  int    `json:"close_at"` // close-race: the closer waits this many of its own yields
 	FrameLen int    `json:"frame_len"` // bytes per written frame (above one record's worth when large)
+	// Dwell (dtlcp, established): the connection under test is the SERVER end, which sent the last flight of
+	// the handshake; copies of the client's last flight are delivered to it again Dwell times while the callers
+	// are at work (the endpoint answers them by re-sending its own last flight from inside Read)
+	Dwell int `json:"dwell,omitempty"`
+	// HSBy (close-hs): which call starts the handshake that Close races with: handshake | read | write
+	HSBy string `json:"hs_by,omitempty"`
+	Role string `json:"role,omitempty"` // close-hs: client | server end under test
 }
 
 func (c13) ID() string    { return "C13" }
 func (c13) Level() string { return "exploration" }
 func (c13) Rule() string {
-	return "each case draws a scenario (established connection / first use racing with the handshake / Close racing with in-flight calls / pa adapter first use), stack (tlcp, dtlcp with ReadFrom+WriteTo), suite, 1-3 writer tasks, 1-3 reader tasks, 0-2 auxiliary tasks (ConnectionState, deadline setters, extra Handshake callers) on ONE connection, and a seeded schedule: the vs kernel decides every pre-emption at every mutex operation, atomic operation and transport call of the library. Built with -race; the kernel's hand-over is invisible to the race detector, so an unsynchronised access pair is reported whatever the distance between the two accesses. Oracle: no race report, no deadlock, every Handshake caller sees the same result, every successful Write appears contiguously and exactly once in the peer's stream, frames delivered to concurrent readers are exactly the frames sent (no loss, no duplicate), after Close every pending call returns. distinct = distinct schedule traces; non-trivial = at least two tasks were in calls on the connection at the same time (kernel counts lock contention / interleaved steps)"
+	return "each case draws a scenario (established connection / first use racing with the handshake / Close racing with in-flight calls / Close against Writes blocked in a full transport / Close racing with a handshake in flight whose peer is silent / pa adapter first use; on dtlcp also the server end while copies of the client's last flight make it re-send its own from inside Read), stack (tlcp, dtlcp with ReadFrom+WriteTo), suite, 1-3 writer tasks, 1-3 reader tasks, 0-2 auxiliary tasks (ConnectionState, deadline setters, extra Handshake callers) on ONE connection, and a seeded schedule: the vs kernel decides every pre-emption at every mutex operation, atomic operation and transport call of the library. Built with -race; the kernel's hand-over is invisible to the race detector, so an unsynchronised access pair is reported whatever the distance between the two accesses. Oracle: no race report, no deadlock, every Handshake caller sees the same result, every successful Write appears contiguously and exactly once in the peer's stream, frames delivered to concurrent readers are exactly the frames sent (no loss, no duplicate), after Close every pending call returns. distinct = distinct schedule traces; non-trivial = at least two tasks were in calls on the connection at the same time (kernel counts lock contention / interleaved steps)"
 }
 func (c13) Components() (real, stub []string) {
 	return []string{"tlcp.Conn, dtlcp.Conn, pa.ProtocolSwitchServerConn (instrumented): all locking and atomics real (sync.Mutex via TryLock loop)", "Go race detector"},
@@ -86,6 +93,14 @@ func drawC13(src *vs.Src) *c13Params {
 	p.FrameLen = c13FrameLen
 	if p.Stack == TLCP && src.Bool(1, 3) {
 		p.FrameLen = 2500 + src.Intn(3000) // several records per Write while the record size ramps up
+	}
+	if p.Stack == DTLCP && p.Scenario == "established" && src.Bool(1, 2) {
+		p.Dwell = 1 + src.Intn(3)
+	}
+	if p.Scenario == "close-blocked" && src.Bool(1, 2) {
+		p.Scenario = "close-hs"
+		p.HSBy = pickStr(src, []string{"handshake", "read", "write"})
+		p.Role = pickStr(src, []string{"client", "server"})
 	}
 	return p
 }
@@ -171,6 +186,9 @@ func (c13) Run(c *Case, src *vs.Src) *Result {
 	if p.Scenario == "close-blocked" {
 		return runC13Blocked(c, src, p, r)
 	}
+	if p.Scenario == "close-hs" {
+		return runC13CloseHS(c, src, p, r)
+	}
 	w := NewWorld(c.Seed, src)
 	w.K.MaxElapsed = 120 * time.Second
 	w.K.MaxSteps = 400000
@@ -182,10 +200,14 @@ func (c13) Run(c *Case, src *vs.Src) *Result {
 		pair.Pipe.C.Seg, pair.Pipe.S.Seg = p.Seg, p.Seg
 	}
 	// connection under test: the client end; the peer (server end) is driven by two tasks
-	var ut c13Conn = pair.C
-	var peer c13Conn = pair.S
+	utEP, peerEP := pair.C, pair.S
+	if p.Dwell > 0 {
+		utEP, peerEP = pair.S, pair.C
+	}
+	var ut c13Conn = utEP
+	var peer c13Conn = peerEP
 	if p.Stack == DTLCP {
-		ut, peer = c13D{pair.C.(dEP)}, c13D{pair.S.(dEP)}
+		ut, peer = c13D{utEP.(dEP)}, c13D{peerEP.(dEP)}
 	}
 	sigp := fmt.Sprintf("C13 %s %s", p.Stack, p.Scenario)
 	var tasks []*c13Task
@@ -210,7 +232,7 @@ func (c13) Run(c *Case, src *vs.Src) *Result {
 				return
 			}
 			if p.Stack == DTLCP {
-				pair.S.SetReadDeadline(vs.Now().Add(5 * time.Second))
+				peerEP.SetReadDeadline(vs.Now().Add(5 * time.Second))
 			}
 			n, err := peer.Read(buf)
 			sinkStream = append(sinkStream, buf[:n]...)
@@ -276,7 +298,7 @@ func (c13) Run(c *Case, src *vs.Src) *Result {
 						return
 					}
 					if p.Stack == DTLCP {
-						pair.C.SetReadDeadline(vs.Now().Add(5 * time.Second))
+						utEP.SetReadDeadline(vs.Now().Add(5 * time.Second))
 					}
 					n, err := ut.Read(buf)
 					if n > 0 {
@@ -297,16 +319,39 @@ func (c13) Run(c *Case, src *vs.Src) *Result {
 				switch kind % 3 {
 				case 0:
 					for k := 0; k < 3; k++ {
-						_ = pair.C.CS()
+						_ = utEP.CS()
 					}
 				case 1:
 					t.HSErr = ut.Handshake()
 					t.HSDone = true
-					_ = pair.C.CS()
+					_ = utEP.CS()
 				case 2:
-					pair.C.SetReadDeadline(time.Time{})
+					utEP.SetReadDeadline(time.Time{})
 					t.HSErr = ut.Handshake()
 					t.HSDone = true
+				}
+			})
+		}
+		if p.Dwell > 0 {
+			t := newTask("net-dwell")
+			w.Go(t.Name, func() {
+				defer func() { t.Done = true }()
+				// the client's last flight (the datagrams that begin with a ChangeCipherSpec record), delivered again
+				var last []*simnet.Dgram
+				for _, d := range pair.Net.SentLog() {
+					if d.Dir == simnet.DirC2S && len(d.Data) > 13 && d.Data[0] == 20 {
+						last = append(last, d)
+					}
+				}
+				for k := 0; k < p.Dwell && len(last) > 0; k++ {
+					for i := 0; i < p.CloseAt; i++ {
+						vs.Yield()
+					}
+					d := last[len(last)-1]
+					// deliverable at once: the readers meet it while the writers are still at work (virtual time only
+					// moves when every task is blocked)
+					pair.Net.Inject(&simnet.Dgram{Data: d.Data, From: d.From, To: d.To, Dir: simnet.DirC2S, At: vs.Now()})
+					r.Stat("dwell_copies_injected", 1)
 				}
 			})
 		}
@@ -642,3 +687,74 @@ func (s *c13Shared) add(d int) { s.writing += d }
 
 //go:norace
 func (s *c13Shared) inWrite() int { return s.writing }
+
+// runC13CloseHS: Close racing with a handshake in flight. The peer never answers; one task starts the handshake
+// (Handshake, or a first Read or Write), another calls Close while the first is blocked waiting for the peer.
+// Close must return promptly and the blocked call must come back with an error - "Close unblocks pending calls".
+func runC13CloseHS(c *Case, src *vs.Src, p *c13Params, r *Result) *Result {
+	sigp := "C13 tlcp close-hs " + p.Role + " " + p.HSBy
+	w := NewWorld(c.Seed, src)
+	w.K.MaxElapsed = 60 * time.Second
+	env := NewEnv(w)
+	cc := &EPConf{Suites: []uint16{p.Suite}, ServerName: "server.test"}
+	sc := &EPConf{Suites: []uint16{p.Suite}, Certs: []string{"server_sig", "server_enc"}}
+	pair := NewPair(TLCP, env, cc, sc, "c", "s", "client:1", "server:443")
+	ut, raw := pair.C, pair.Pipe.S
+	if p.Role == "server" {
+		ut, raw = pair.S, pair.Pipe.C
+	}
+	st := &c13Shared{}
+	var callErr, closeErr error
+	var closeTook, callBack time.Duration
+	w.Go("peer", func() {
+		// holds the transport open, says nothing, goes away after 50 s
+		vs.Block(func() bool { return st.get() == 3 }, vs.Now().Add(50*time.Second))
+		raw.Close()
+	})
+	w.Go("ut-caller", func() {
+		st.add(1)
+		buf := make([]byte, 64)
+		switch p.HSBy {
+		case "read":
+			_, callErr = ut.Read(buf)
+		case "write":
+			_, callErr = ut.Write([]byte("first write"))
+		default:
+			callErr = ut.Handshake()
+		}
+		st.add(-1)
+		callBack = w.K.Elapsed()
+		st.set(2)
+	})
+	w.Go("ut-closer", func() {
+		// wait until the caller is inside its call and (for a client) the hello is on the wire
+		vs.Block(func() bool { return st.inWrite() > 0 && (p.Role == "server" || raw.Pending() > 0) }, vs.Now().Add(5*time.Second))
+		for i := 0; i < p.CloseAt; i++ {
+			vs.Yield()
+		}
+		t0 := w.K.Elapsed()
+		closeErr = ut.Close()
+		closeTook = w.K.Elapsed() - t0
+		vs.Block(func() bool { return st.get() == 2 }, vs.Now().Add(10*time.Second))
+		st.set(3)
+	})
+	reason, unf := w.Run()
+	w.Finish(r, sigp)
+	r.Key = r.Trace
+	r.Outcome = reason
+	if closeTook > 6*time.Second {
+		r.Violate("close-blocked", sigp+" close-does-not-unblock", "Close while %s was waiting for the peer's handshake messages took %v of virtual time (it came back only when the peer went away); Close returned %v, the call %v", p.HSBy, closeTook, closeErr, callErr)
+	}
+	if reason != vs.Done {
+		r.Violate("deadlock", sigp+" "+reason, "Close during a handshake in flight: run ended with %q, unfinished tasks %v", reason, unf)
+		return r
+	}
+	if callErr == nil {
+		r.Violate("call", sigp+" pending-call-returned-nil", "%s returned nil although the peer never answered and the connection was closed", p.HSBy)
+	}
+	if callBack > 12*time.Second {
+		r.Violate("close-blocked", sigp+" pending-call-not-unblocked", "the pending %s came back only after %v (error %v)", p.HSBy, callBack, callErr)
+	}
+	r.Stat("close_during_handshake", 1)
+	return r
+}
